@@ -18,6 +18,10 @@ type verifScript struct {
 	recs []*sam.Record
 	fail int // -1: ends with io.EOF; k: the read after k records fails
 	pos  int
+
+	refNames, mateNames []string
+	placed, mated       []bool
+	poss                []int
 }
 
 var verifScripts = map[*Reader]*verifScript{}
@@ -186,6 +190,12 @@ func VerifH_merger() {
 				vrt.Assume(!verifLessInHeader(so, rec, s.recs[i-1]))
 			}
 			s.recs = append(s.recs, rec)
+			// the Merger re-links records in place: keep what the source said
+			s.refNames = append(s.refNames, rec.Ref.Name())
+			s.mateNames = append(s.mateNames, rec.MateRef.Name())
+			s.placed = append(s.placed, rec.Ref != nil)
+			s.mated = append(s.mated, rec.MateRef != nil)
+			s.poss = append(s.poss, rec.Pos)
 		}
 		if vrt.Param("faults", 0) == 1 && vrt.Choice("fails", 2) == 1 {
 			s.fail = vrt.Choice("failat", n+1)
@@ -238,23 +248,23 @@ func VerifH_merger() {
 		vrt.Assert(in >= 0 && in < K, "record-from-an-input")
 		vrt.Assert(idx == next[in], "input-relative-order-kept")
 		next[in]++
-		src := scripts[in].recs[idx]
+		sc := scripts[in]
 		// re-linked to the merged header with the source's name
-		if src.Ref != nil {
+		if sc.placed[idx] {
 			vrt.Assert(rec.Ref != nil, "ref-kept")
 			id := rec.Ref.ID()
 			vrt.Assert(id >= 0 && id < len(mh.Refs()) && mh.Refs()[id] == rec.Ref, "ref-belongs-to-merged-header")
-			vrt.Assert(rec.Ref.Name() == src.Ref.Name(), "ref-name-kept")
+			vrt.Assert(rec.Ref.Name() == sc.refNames[idx], "ref-name-kept")
 		} else {
 			vrt.Assert(rec.Ref == nil, "unplaced-stays-unplaced")
 		}
-		if src.MateRef != nil {
+		if sc.mated[idx] {
 			vrt.Assert(rec.MateRef != nil, "materef-kept")
 			id := rec.MateRef.ID()
 			vrt.Assert(id >= 0 && id < len(mh.Refs()) && mh.Refs()[id] == rec.MateRef, "materef-belongs-to-merged-header")
-			vrt.Assert(rec.MateRef.Name() == src.MateRef.Name(), "materef-name-kept")
+			vrt.Assert(rec.MateRef.Name() == sc.mateNames[idx], "materef-name-kept")
 		}
-		vrt.Assert(rec.Pos == src.Pos, "pos-kept")
+		vrt.Assert(rec.Pos == sc.poss[idx], "pos-kept")
 	}
 	// global order
 	for i := 1; i < len(out); i++ {
